@@ -198,19 +198,38 @@ func runC02(c *Ctx) {
 		// the chain key stored by registration is the window function's result
 		if regFn != nil {
 			found := false
-			for _, s := range ei.sitesWith(regFn, putChain) {
-				for _, a := range s.Instr.Common().Args {
-					if ex, ok := stripConv(a).(*ssa.Extract); ok {
-						if call, ok := ex.Tuple.(*ssa.Call); ok && staticCallee(call.Common()) == windowFn && ex.Index == 0 {
-							found = true
+			// possible values of an argument: through phis and through loads of a local cell
+			// (named results are spilled to cells in functions with defer)
+			var possible func(v ssa.Value, d int, out *[]ssa.Value)
+			possible = func(v ssa.Value, d int, out *[]ssa.Value) {
+				v = stripConv(v)
+				*out = append(*out, v)
+				if d > 4 {
+					return
+				}
+				switch x := v.(type) {
+				case *ssa.Phi:
+					for _, e := range x.Edges {
+						possible(e, d+1, out)
+					}
+				case *ssa.UnOp:
+					if al, isAlloc := x.X.(*ssa.Alloc); isAlloc && x.Op == token.MUL && al.Referrers() != nil {
+						for _, r := range *al.Referrers() {
+							if st, isStore := r.(*ssa.Store); isStore && st.Addr == ssa.Value(al) {
+								possible(st.Val, d+1, out)
+							}
 						}
 					}
-					if ph, ok := stripConv(a).(*ssa.Phi); ok {
-						for _, e := range ph.Edges {
-							if ex, ok := e.(*ssa.Extract); ok {
-								if call, ok := ex.Tuple.(*ssa.Call); ok && staticCallee(call.Common()) == windowFn {
-									found = true
-								}
+				}
+			}
+			for _, s := range ei.sitesWith(regFn, putChain) {
+				for _, a := range s.Instr.Common().Args {
+					var vals []ssa.Value
+					possible(a, 0, &vals)
+					for _, v := range vals {
+						if ex, ok := v.(*ssa.Extract); ok {
+							if call, ok := ex.Tuple.(*ssa.Call); ok && staticCallee(call.Common()) == windowFn && ex.Index == 0 {
+								found = true
 							}
 						}
 					}
